@@ -45,6 +45,9 @@ func checkC06(c *core.Ctx) {
 	for _, impl := range storeImpls {
 		c06Laws(c, k, ck, impl, false)
 		c06Laws(c, k, ck, impl, true)
+		c06Partial = true
+		c06Laws(c, k, ck, impl, false)
+		c06Partial = false
 		c06Merge(c, k, ck, impl)
 	}
 	c06Wrappers(c, k, ck)
@@ -55,6 +58,9 @@ func checkC06(c *core.Ctx) {
 	c.Rule("ORDABS.atoms-compared-structurally", "the stores tell atoms apart with Constant.Equals / Atom.Equals: evaluated from source over the constant universe of C08 (every kind, nested, equal first components with second components that differ only in kind, values whose hashes coincide), Equals is structural equality and agrees with Hash and String (obligation shared with C08)", 2)
 	c.Under("ORDABS.atoms-compared-structurally", []string{rC08Eq, rC08Hash, rC08Inj}, func() { c08Equality(c, false, false) })
 }
+
+// c06Partial switches c06Laws to the partial-collision hash (see storeRig.partial).
+var c06Partial bool
 
 // c06RuleOverride lets another property (C05: choice of store) evaluate the same laws under its own rule name.
 var c06RuleOverride string
@@ -67,6 +73,9 @@ type storeRig struct {
 	impl   storeImpl
 	ids    map[string]int64
 	collide bool
+	// partial: the constants 1 and 2 have the same hash, every other hash is distinct, and an atom's hash is an
+	// injective function of its predicate and its arguments' hashes (as the real Atom.Hash is, up to collisions)
+	partial bool
 }
 
 func newStoreRig(c *core.Ctx, k *astKit, ck *constKit, impl storeImpl, collide bool) *storeRig {
@@ -83,12 +92,36 @@ func newStoreRig(c *core.Ctx, k *astKit, ck *constKit, impl storeImpl, collide b
 		r.ids[s] = v
 		return v
 	}
+	constID := func(n any) int64 {
+		if r.partial && fmt.Sprint(n) == "2" {
+			return id("const:1")
+		}
+		return id(fmt.Sprint("const:", n))
+	}
 	r.in.Stubs["ast.Atom.Hash"] = func(in *ordabs.Interp, recv ordabs.Value, _ []ordabs.Value) ([]ordabs.Value, error) {
+		if r.partial {
+			a, _ := recv.(*ordabs.Rec)
+			key := "atom:?"
+			if a != nil {
+				p, _ := a.Fields["Predicate"].(*ordabs.Rec)
+				key = fmt.Sprintf("atom:%v/%v(", p.Fields["Symbol"], p.Fields["Arity"])
+				if sl, _ := a.Fields["Args"].(*ordabs.Slice); sl != nil {
+					for _, x := range *sl.Elems {
+						if xr, _ := x.(*ordabs.Rec); xr != nil && xr.T == "ast.Constant" {
+							key += fmt.Sprint(constID(xr.Fields["NumValue"]), ",")
+						} else {
+							key += "v,"
+						}
+					}
+				}
+			}
+			return []ordabs.Value{id(key)}, nil
+		}
 		return []ordabs.Value{id("atom:" + atomKey(recv))}, nil
 	}
 	r.in.Stubs["ast.Constant.Hash"] = func(in *ordabs.Interp, recv ordabs.Value, _ []ordabs.Value) ([]ordabs.Value, error) {
 		rec, _ := recv.(*ordabs.Rec)
-		return []ordabs.Value{id(fmt.Sprint("const:", rec.Fields["NumValue"]))}, nil
+		return []ordabs.Value{constID(rec.Fields["NumValue"])}, nil
 	}
 	return r
 }
@@ -229,8 +262,16 @@ func c06Laws(c *core.Ctx, k *astKit, ck *constKit, impl storeImpl, collide bool)
 		rule = c06RuleOverride
 	}
 	r := newStoreRig(c, k, ck, impl, collide)
+	r.partial = c06Partial
 	atoms := []*ordabs.Rec{r.mkAtom("p", 1, 1), r.mkAtom("p", 1, 2), r.mkAtom("p", 2, 1), r.mkAtom("z")}
 	keys := []string{"p(1,1)", "p(1,2)", "p(2,1)", "z()"}
+	label := "factstore." + impl.name
+	if c06Partial {
+		// constants 1 and 2 collide; no two of these atoms collide as atoms
+		atoms = []*ordabs.Rec{r.mkAtom("p", 1, 3), r.mkAtom("p", 2, 4), r.mkAtom("p", 3, 1), r.mkAtom("z")}
+		keys = []string{"p(1,3)", "p(2,4)", "p(3,1)", "z()"}
+		label += ":colliding-constants"
+	}
 	type q struct {
 		pat  *ordabs.Rec
 		pred func(string) bool
@@ -238,6 +279,11 @@ func c06Laws(c *core.Ctx, k *astKit, ck *constKit, impl storeImpl, collide bool)
 	}
 	queries := []q{
 		{r.mkAtom("p", -1, -1), func(s string) bool { return strings.HasPrefix(s, "p(") }, "p(X,Y)"},
+		{r.mkAtom("p", 3, -1), func(s string) bool { return strings.HasPrefix(s, "p(3,") }, "p(3,Y)"},
+		{r.mkAtom("p", -1, 3), func(s string) bool { return strings.HasPrefix(s, "p(") && strings.HasSuffix(s, ",3)") }, "p(X,3)"},
+		{r.mkAtom("p", -1, 4), func(s string) bool { return strings.HasPrefix(s, "p(") && strings.HasSuffix(s, ",4)") }, "p(X,4)"},
+		{r.mkAtom("p", 2, 3), func(s string) bool { return s == "p(2,3)" }, "p(2,3)"},
+		{r.mkAtom("p", 1, 4), func(s string) bool { return s == "p(1,4)" }, "p(1,4)"},
 		{r.mkAtom("p", 1, -1), func(s string) bool { return strings.HasPrefix(s, "p(1,") }, "p(1,Y)"},
 		{r.mkAtom("p", -1, 1), func(s string) bool { return strings.HasPrefix(s, "p(") && strings.HasSuffix(s, ",1)") }, "p(X,1)"},
 		{r.mkAtom("p", -1, 2), func(s string) bool { return strings.HasPrefix(s, "p(") && strings.HasSuffix(s, ",2)") }, "p(X,2)"},
@@ -371,7 +417,7 @@ func c06Laws(c *core.Ctx, k *astKit, ck *constKit, impl storeImpl, collide bool)
 	if collide {
 		mode = "all hashes equal"
 	}
-	c.Check(bad == "", rule, "factstore."+impl.name, anchor.Decl.Pos(), fmt.Sprintf("behaves as a set on %d histories (%s)", runs, mode), bad)
+	c.Check(bad == "", rule, label, anchor.Decl.Pos(), fmt.Sprintf("behaves as a set on %d histories (%s)", runs, mode), bad)
 }
 
 func c06Merge(c *core.Ctx, k *astKit, ck *constKit, impl storeImpl) {
